@@ -1,6 +1,6 @@
 (* C04 — RevertHead undoes Store on every index family. *)
 From Coq Require Import List NArith Bool Lia ZifyN ZifyNat ZifyBool.
-From V Require Import C03.Model C03.Proofs_map C03.Proofs_inv C03.Proofs_store C03.Proofs_new C03.Proofs_read C03.Proofs_old C03.Proofs.
+From V Require Import C03.Model C03.Proofs_map C03.Proofs_inv C03.Proofs_store C03.Proofs_new C03.Proofs_read C03.Proofs_old C03.Proofs C03.Proofs_casm.
 From V Require Import C04.Model.
 Import ListNotations.
 Open Scope N_scope.
@@ -48,32 +48,6 @@ Proof.
     apply find_key_some in F. destruct F as [K0 Hin]. subst. symmetry. auto.
 Qed.
 
-(* casm metadata: declare + migrate, then delete + unmigrate *)
-Lemma casm_undo : forall (m : smap (N * N)) (decl : list (N * N)) (migr : list N) n, sorted m ->
-  (forall e, In e decl -> get m [fst e] = None) ->
-  (forall h, In h migr -> exists a, get m [h] = Some (a, 0)) ->
-  let m1 := foldd (fun h m' => put [h] (casm_at m h, n) m') migr (foldd (fun e m' => put [fst e] (n, 0) m') decl m) in
-  foldd (fun h m' => put [h] (casm_at m1 h, 0) m') migr (foldd (fun e m' => del [fst e] m') decl m1) = m.
-Proof.
-  intros m decl migr n S Hd Hm m1.
-  assert (S1 : sorted m1) by (unfold m1; repeat apply sorted_fold_put; auto).
-  assert (G1 : forall h, In h migr -> casm_at m1 h = casm_at m h).
-  { intros. unfold casm_at at 1. unfold m1. rewrite get_fold_put.
-    destruct (find (fun e => keqb [h] [e]) migr) eqn:F.
-    - apply find_key_some in F. destruct F as [K _]. inversion K. auto.
-    - eapply find_none in F; eauto. rewrite keqb_refl in F. discriminate. }
-  apply sorted_ext; auto.
-  - apply sorted_fold_put. apply sorted_fold_del. auto.
-  - intros k. rewrite get_fold_put.
-    destruct (find (fun e => keqb k [e]) migr) eqn:F.
-    + apply find_key_some in F. destruct F as [K Hin]. subst. rewrite G1 by auto.
-      destruct (Hm _ Hin) as [a Ha]. unfold casm_at. rewrite Ha. auto.
-    + rewrite get_fold_del by auto.
-      destruct (find (fun e => keqb k [fst e]) decl) eqn:F1.
-      * apply find_key_some in F1. destruct F1 as [K Hin]. subst. symmetry. auto.
-      * unfold m1. rewrite !get_fold_put. rewrite F, F1. auto.
-Qed.
-
 (* ---------- node invariant ---------- *)
 Record NInv (x : node) : Prop := mkNInv {
   ni_st : Inv (n_st x);
@@ -87,26 +61,29 @@ Lemma NInv_empty : NInv node_empty.
 Proof. constructor; simpl; auto. apply Inv_empty. Qed.
 
 Record VNext (x : node) (b : block) : Prop := mkVNext {
-  vn_diff : Valid (n_st x) (b_diff b);
+  vn_diff : VS (n_st x) (b_diff b);
   vn_hash : get (n_num x) [b_hash b] = None;
   vn_txs : forall e, In e (b_txs b) -> get (n_txidx x) [fst e] = None;
   vn_l1 : forall e, In e (l1s (b_txs b)) -> get (n_l1 x) [fst e] = None;
-  vn_casm : forall e, In e (b_casm b) -> get (n_casm x) [fst e] = None;
-  vn_migr : forall h, In h (b_migr b) -> exists a, get (n_casm x) [h] = Some (a, 0)
+  vn_casm : CV (n_casm x) (cblk_of b)
 }.
 
-Lemma valid_next_VNext : forall x b, valid_next x b = true -> VNext x b.
+Lemma valid_next_VNext : forall x b, valid_next x b = true -> sys_guard (n_st x) (b_diff b) = true -> VNext x b.
 Proof.
-  unfold valid_next. intros. remember (valid_diffb (n_st x) (b_diff b)) as vd.
-  repeat (apply andb_true_iff in H; destruct H as [H ?]). subst vd.
+  unfold valid_next. intros x b H G. remember (valid_diffb (n_st x) (b_diff b)) as vd.
+  remember (cvalid (n_casm x) (cblk_of b)) as cv.
+  apply andb_true_iff in H. destruct H as [H Hc].
+  apply andb_true_iff in H. destruct H as [H Hl2].
+  apply andb_true_iff in H. destruct H as [H Hl1].
+  apply andb_true_iff in H. destruct H as [H Ht2].
+  apply andb_true_iff in H. destruct H as [H Ht1].
+  apply andb_true_iff in H. destruct H as [Hd Hh]. subst vd cv.
   constructor.
-  - apply valid_diffb_Valid; auto.
+  - apply valid_diffb_VS; auto.
   - apply freshk_none; auto.
-  - intros. rewrite forallb_forall in H6. apply freshk_none. auto.
-  - intros. rewrite forallb_forall in H4. apply freshk_none. auto.
-  - intros. rewrite forallb_forall in H2. apply freshk_none. auto.
-  - intros. rewrite forallb_forall in H0. apply H0 in H9 as H10.
-    destruct (get (n_casm x) [h]) as [[a m]|]; [|discriminate]. exists a. f_equal. f_equal. lia.
+  - intros. rewrite forallb_forall in Ht2. apply freshk_none. auto.
+  - intros. rewrite forallb_forall in Hl2. apply freshk_none. auto.
+  - apply cvalid_CV; auto.
 Qed.
 
 Section NodeRevert.
@@ -131,8 +108,7 @@ Section NodeRevert.
        | apply (ni_s2 _ NI) | apply (vn_hash _ _ VN) | apply (ni_s1 _ NI) | auto].
     rewrite txidx_undo; [| apply (ni_s4 _ NI) | apply (vn_txs _ _ VN)].
     rewrite put_del_undo; [| apply (ni_s5 _ NI) | apply (vn_l1 _ _ VN)].
-    rewrite (casm_undo (n_casm x) (b_casm b) (b_migr b) (s_next (n_st x)));
-      [| apply (ni_s8 _ NI) | apply (vn_casm _ _ VN) | apply (vn_migr _ _ VN)].
+    rewrite casm_undo; [| apply (ni_s8 _ NI) | apply (vn_casm _ _ VN)].
     simpl. destruct x; auto.
   Qed.
 
@@ -143,7 +119,7 @@ Section NodeRevert.
       try (apply sorted_put; apply NI).
     - apply sorted_put_txidx. apply NI.
     - apply sorted_fold_put. apply NI.
-    - repeat apply sorted_fold_put. apply NI.
+    - apply sorted_casm_store; [apply (vn_casm _ _ VN) | apply NI].
     - intros m Hm. rewrite next_st in Hm. destruct (ni_top _ NI m) as [T1 [T2 [T3 T4]]]; [lia|].
       rewrite !get_put. rewrite keqb1. destruct (m =? s_next (n_st x)) eqn:E; [lia|]. auto.
   Qed.
@@ -152,41 +128,56 @@ End NodeRevert.
 (* ---------- new backend ---------- *)
 Definition NInv_new (x : node) : Prop := NInv x /\ Hist_new (n_st x).
 
-Lemma c04_new_lemma : forall x b, NInv_new x -> valid_next x b = true ->
-  exists x', revert_new_node (store_new_node x b) = Some x' /\ obs x' = obs x.
+(* [storable x b]: the node accepts b, and b leaves the system contracts it writes to non-empty *)
+Definition storable (x : node) (b : block) : Prop := valid_next x b = true /\ sys_guard (n_st x) (b_diff b) = true.
+
+Lemma next_new : forall s d, s_next (store_new s d) = s_next s + 1.
+Proof. reflexivity. Qed.
+Lemma next_old : forall s d, s_next (store_old s d) = s_next s + 1.
+Proof. reflexivity. Qed.
+
+Lemma revert_store_new_node : forall x b, NInv_new x -> storable x b -> revert_new_node (store_new_node x b) = Some x.
 Proof.
-  intros x b [NI Hs] V. apply valid_next_VNext in V. exists x. split; auto.
-  apply revert_store_node; auto. apply revert_store_new; auto; [apply NI | apply V].
+  intros x b [NI Hs] [V G]. pose proof (valid_next_VNext _ _ V G) as VN.
+  apply revert_store_node; auto. apply revert_store_new; auto; [apply NI | apply VN].
 Qed.
 
-Lemma NInv_new_store : forall x b, NInv_new x -> valid_next x b = true -> NInv_new (store_new_node x b).
+Lemma c04_new_lemma : forall x b, NInv_new x -> valid_next x b = true -> sys_guard (n_st x) (b_diff b) = true ->
+  exists x', revert_new_node (store_new_node x b) = Some x' /\ obs x' = obs x.
+Proof. intros x b H V G. exists x. split; auto. apply revert_store_new_node; auto. split; auto. Qed.
+
+Lemma NInv_new_store : forall x b, NInv_new x -> valid_next x b = true -> sys_guard (n_st x) (b_diff b) = true ->
+  NInv_new (store_new_node x b).
 Proof.
-  intros x b [NI Hs] V. apply valid_next_VNext in V. split.
-  - apply NInv_store_node; auto. apply Inv_store_new; [apply NI | apply V].
-  - apply Hist_store_new; auto; [apply NI | apply V].
+  intros x b [NI Hs] V G. pose proof (valid_next_VNext _ _ V G) as VN. split.
+  - apply NInv_store_node; auto. apply Inv_store_new; [apply NI | apply VN].
+  - apply Hist_store_new; auto; [apply NI | apply VN].
 Qed.
 
 (* ---------- legacy backend ---------- *)
-Lemma c04_old_lemma : forall x b, NInv x -> valid_next x b = true ->
-  exists x', revert_old_node (store_old_node x b) = Some x' /\ obs x' = obs x.
+Lemma revert_store_old_node : forall x b, NInv x -> storable x b -> revert_old_node (store_old_node x b) = Some x.
 Proof.
-  intros x b NI V. apply valid_next_VNext in V. exists x. split; auto.
-  apply revert_store_node; auto.
-  apply revert_store_old; auto; [apply NI | apply V].
+  intros x b NI [V G]. pose proof (valid_next_VNext _ _ V G) as VN.
+  apply revert_store_node; auto. apply revert_store_old; auto; [apply NI | apply VN].
 Qed.
 
-Lemma NInv_old_store : forall x b, NInv x -> valid_next x b = true -> NInv (store_old_node x b).
+Lemma c04_old_lemma : forall x b, NInv x -> valid_next x b = true -> sys_guard (n_st x) (b_diff b) = true ->
+  exists x', revert_old_node (store_old_node x b) = Some x' /\ obs x' = obs x.
+Proof. intros x b H V G. exists x. split; auto. apply revert_store_old_node; auto. split; auto. Qed.
+
+Lemma NInv_old_store : forall x b, NInv x -> valid_next x b = true -> sys_guard (n_st x) (b_diff b) = true ->
+  NInv (store_old_node x b).
 Proof.
-  intros x b NI V. apply valid_next_VNext in V.
+  intros x b NI V G. pose proof (valid_next_VNext _ _ V G) as VN.
   apply NInv_store_node; auto.
-  apply Inv_store_old; [apply NI | apply V].
+  apply Inv_store_old; [apply NI | apply VN].
 Qed.
 
 (* ---------- forks ---------- *)
 Fixpoint all_valid (store : node -> block -> node) (x : node) (A : list block) : Prop :=
   match A with
   | [] => True
-  | b :: A' => valid_next x b = true /\ all_valid store (store x b) A'
+  | b :: A' => storable x b /\ all_valid store (store x b) A'
   end.
 
 Lemma repeat_shift : forall n (B : list nop), repeat NRevert n ++ NRevert :: B = NRevert :: repeat NRevert n ++ B.
@@ -196,15 +187,11 @@ Lemma fork_new_lemma : forall A B x, NInv_new x -> all_valid store_new_node x A 
   nrun_new (map NStore A ++ repeat NRevert (length A) ++ B) x = nrun_new B x.
 Proof.
   induction A; simpl; intros; auto.
-  destruct H0 as [V AV]. unfold nrun_new in *. simpl. rewrite V.
+  destruct H0 as [[V G] AV]. unfold nrun_new in *. simpl. rewrite V.
   replace (map NStore A ++ NRevert :: repeat NRevert (length A) ++ B)
     with (map NStore A ++ repeat NRevert (length A) ++ (NRevert :: B)).
   - rewrite IHA; auto using NInv_new_store. simpl.
-    destruct (c04_new_lemma x a H V) as [x' [R O]]. 
-    apply valid_next_VNext in V. destruct H as [NI Hs].
-    assert (revert_new_node (store_new_node x a) = Some x).
-    { apply revert_store_node; auto. apply revert_store_new; auto; [apply NI | apply V]. }
-    rewrite H. auto.
+    rewrite revert_store_new_node; auto. split; auto.
   - f_equal. apply repeat_shift.
 Qed.
 
@@ -212,14 +199,18 @@ Lemma fork_old_lemma : forall A B x, NInv x -> all_valid store_old_node x A ->
   nrun_old (map NStore A ++ repeat NRevert (length A) ++ B) x = nrun_old B x.
 Proof.
   induction A; simpl; intros; auto.
-  destruct H0 as [V AV]. unfold nrun_old in *. simpl. rewrite V.
+  destruct H0 as [[V G] AV]. unfold nrun_old in *. simpl. rewrite V.
   replace (map NStore A ++ NRevert :: repeat NRevert (length A) ++ B)
     with (map NStore A ++ repeat NRevert (length A) ++ (NRevert :: B)).
   - rewrite IHA; auto using NInv_old_store. simpl.
-    pose proof V as V'. apply valid_next_VNext in V.
-    assert (revert_old_node (store_old_node x a) = Some x).
-    { apply revert_store_node; auto.
-      apply revert_store_old; auto; [apply H | apply V]. }
-    rewrite H0. auto.
+    rewrite revert_store_old_node; auto. split; auto.
   - f_equal. apply repeat_shift.
 Qed.
+
+Lemma fork_new_obs : forall A B x, NInv_new x -> all_valid store_new_node x A ->
+  obs (nrun_new (map NStore A ++ repeat NRevert (length A) ++ B) x) = obs (nrun_new B x).
+Proof. intros. rewrite fork_new_lemma; auto. Qed.
+
+Lemma fork_old_obs : forall A B x, NInv x -> all_valid store_old_node x A ->
+  obs (nrun_old (map NStore A ++ repeat NRevert (length A) ++ B) x) = obs (nrun_old B x).
+Proof. intros. rewrite fork_old_lemma; auto. Qed.
